@@ -13,6 +13,7 @@ EXPLANATION = (
 )
 DECIDED = ["the shared and the non-shared graphlet processor update a query's trend count under the same per-query guards",
            "both processors accumulate into the count (saturating add onto the previous count) and advance snapshot_value together with every count update",
+           "every transition into a trend re-seeds the query's incoming snapshot value in the same step",
            "a closed graphlet is handed to exactly one of the two processors, with the same graphlet and query list, and is marked processed on every such path"]
 NOT_DECIDED = ["the counts themselves (equality with brute-force enumeration)", "snapshot propagation coefficients", "split / merge decisions of the optimizer"]
 
@@ -72,6 +73,31 @@ def run_update_shape(ctx):
             else:
                 ctx.violation(R, key + ":advances-snapshot", "%s updates a query's count without advancing its snapshot_value in the same step: the next graphlet starts from a stale incoming value in this processor only" % name, site=w["sp"])
     ctx.floor(R, "count updates in the two graphlet processors", n, 2)
+    # every transition into a trend re-seeds the incoming snapshot value in the same step (anywhere in the aggregator)
+    T = "trend-start"
+    F = ctx.facts()
+    starts = 0
+    for fn in [p_ for p_ in F.hir_paths() if p_.startswith(H + "HamletAggregator::")]:
+        hh = F.hir(fn)
+        if hh is None:
+            continue
+        for blk in [b_ for b_ in HQ.walk(hh["body"]) if b_.get("k") == "block"]:
+            ex = [HQ.strip(s_["e"]) for s_ in blk["stmts"] if s_["k"] == "expr"] + ([HQ.strip(blk["tail"])] if blk.get("tail") is not None else [])
+            for e in ex:
+                if e is None or e.get("k") != "assign" or e["op"] is not None:
+                    continue
+                l = HQ.strip(e["l"])
+                if l.get("k") == "field" and l["name"] == "in_trend" and l.get("adt") == QS and HQ.show(e["r"]) == "true":
+                    starts += 1
+                    owner = HQ.local_key(l["e"])
+                    seeded = [e2 for e2 in ex if e2 is not None and e2.get("k") == "assign" and e2["op"] is None and HQ.strip(e2["l"]).get("k") == "field"
+                              and HQ.strip(e2["l"])["name"] == "snapshot_value" and HQ.strip(e2["l"]).get("adt") == QS and HQ.local_key(HQ.strip(e2["l"])["e"]) == owner]
+                    key = "%s:in_trend#%d" % (fn.rsplit("::", 1)[1], starts)
+                    if seeded:
+                        ctx.ok(T, key + ":reseeds-snapshot", "snapshot_value = %s" % HQ.show(seeded[0]["r"]), site=e["sp"])
+                    else:
+                        ctx.violation(T, key + ":reseeds-snapshot", "%s sets QueryState.in_trend without re-seeding snapshot_value in the same step: a trend that starts after earlier graphlets were processed inherits their propagated value (the graphlet processors advance snapshot_value), so its count depends on what was processed before and on whether those bursts were shared" % fn.rsplit("::", 1)[1], site=e["sp"])
+    ctx.floor(T, "transitions into a trend (in_trend = true)", starts, 1)
     # dispatch
     D = "dispatch"
     hd = ctx.need_hir(H + "HamletAggregator::process_closed_graphlet", rule=D)
